@@ -221,6 +221,50 @@ class PackerModel:
         return self._sm.Struct(self.endian_tag + item)
 
 
+class SymKeyDict:
+    """a dict (same mapping) that can be asked with a proxy key: lookup by equality, forking"""
+
+    def __init__(self, d):
+        self._d = d
+
+    def _find(self, k):
+        for key in self._d:
+            e = key == k
+            if e is False or e is NotImplemented:
+                continue
+            if e:          # forks for proxies
+                return True, self._d[key]
+        return False, None
+
+    def get(self, k, default=None):
+        ok, v = self._find(k)
+        return v if ok else default
+
+    def __getitem__(self, k):
+        ok, v = self._find(k)
+        if not ok:
+            raise KeyError(k)
+        return v
+
+    def __contains__(self, k):
+        return self._find(k)[0]
+
+    def __iter__(self):
+        return iter(self._d)
+
+    def __len__(self):
+        return len(self._d)
+
+    def keys(self):
+        return self._d.keys()
+
+    def items(self):
+        return self._d.items()
+
+    def values(self):
+        return self._d.values()
+
+
 class SymStream:
     """io.BytesIO over a SymBytes / bytes of concrete length, concrete position"""
 
